@@ -320,6 +320,8 @@ def linearize_measure_contents(part, start, end, state):
                 state,
                 # the next segment (with other divisions) starts at the end of this one
                 restore_position=i < len(splits) - 1,
+                # the measure lasts until its end, also when its last voice stops earlier
+                fill_to_end=i == len(splits) - 1,
             )
         )
 
@@ -427,7 +429,9 @@ def remove_voice_polyphony(notes_by_voice):
 #                 part.add(rest, note.end.t, end.t)
 
 
-def linearize_segment_contents(part, start, end, state, restore_position=False):
+def linearize_segment_contents(
+    part, start, end, state, restore_position=False, fill_to_end=False
+):
     """
     Determine the document order of events starting between `start` (inclusive)
     and `end` (exlusive).
@@ -504,7 +508,11 @@ def linearize_segment_contents(part, start, end, state, restore_position=False):
     other_e = harmony_e + attributes_e + directions_e + barline_e + prints_e
 
     contents = merge_measure_contents(
-        voices_e, other_e, start.t, end.t if restore_position else None
+        voices_e,
+        other_e,
+        start.t,
+        end.t if restore_position else None,
+        end.t if fill_to_end else None,
     )
 
     return contents
@@ -672,7 +680,9 @@ def merge_with_voice(notes, other, measure_start):
     return result, fb_cost
 
 
-def merge_measure_contents(notes, other, measure_start, segment_end=None):
+def merge_measure_contents(
+    notes, other, measure_start, segment_end=None, measure_end=None
+):
     merged = {}
     # cost (measured as the total forward/backup jumps needed to merge) all
     # elements in `other` into each voice
@@ -738,6 +748,14 @@ def merge_measure_contents(notes, other, measure_start, segment_end=None):
         e = etree.Element(tag)
         ee = etree.SubElement(e, "duration")
         ee.text = "{:d}".format(abs(int(segment_end - pos)))
+        result.append(e)
+
+    elif measure_end is not None and pos < measure_end:
+        # the last voice ends before the measure does: without a <forward> the
+        # measure would end (and the next one start) where that voice ends
+        e = etree.Element("forward")
+        ee = etree.SubElement(e, "duration")
+        ee.text = "{:d}".format(int(measure_end - pos))
         result.append(e)
 
     return result
